@@ -248,8 +248,8 @@ pub open spec fn binop_str(p: int) -> &'static str {
     else if p == 0x0D { ">" } else if p == 0x0E { "<>" } else if p == 0x0F { " " } else if p == 0x10 { "," } else { ":" }
 }
 pub open spec fn binop(p: int) -> Seq<char> { binop_str(p)@ }
-/// the operator the code selected is the operator of the token (compared as literals: no text reasoning needed)
-pub open spec fn xlsb_binary_operator_is(op: &str, want: &str) -> bool { op == want }
+/// the operator the code selected is the operator of the token (plain equality of the two literal texts: no extensional reasoning needed)
+pub open spec fn xlsb_binary_operator_is(op: Seq<char>, want: Seq<char>) -> bool { op == want }
 /// [MS-XLSB] 2.5.97.2 BErr
 pub open spec fn err_text(e: int) -> Option<Seq<char>> {
     if e == 0x00 { Some("#NULL!"@) } else if e == 0x07 { Some("#DIV/0!"@) } else if e == 0x0F { Some("#VALUE!"@) } else if e == 0x17 { Some("#REF!"@) }
@@ -838,7 +838,7 @@ verus! {
                     }
 //@@ before /formula\.push_str\(op\);/
                 //# C14.xlsb_binary_operator_text
-                assert(xlsb_binary_operator_is(op, binop_str(ptg as int)));
+                assert(xlsb_binary_operator_is(op@, binop(ptg as int)));
 //@@ before /\}\n {12}0x3b \| 0x5b \| 0x7b => \{/
                 proof {
                     assert(stack@ =~= st_in.push(blen(f_in) as usize));
